@@ -2,9 +2,9 @@ import NeatviVerif.Lemmas.C05fJ
 /-!
 # C05f, part K: `vi_motion`
 
-`SlashOk s`: the hypothesis that excludes the one trap of the motions — a counted `/` search whose match
-reaches the end of its line (then `lbuf_search` is restarted beyond the line and `uc_chr` returns its static
-`""`).  `MarksIn s`: a mark whose row is beyond the buffer has column 0 (the model lets `uc_sub` trap on a
+`SearchOk s`: the hypotheses that exclude the traps of the searches — a counted `/` search whose match reaches the
+end of its line (then `lbuf_search` is restarted beyond the line and `uc_chr` returns its static `""`), a remembered
+pattern with a NUL, and a repeated search restarted from a hit on the end of its line.  `MarksIn s`: a mark whose row is beyond the buffer has column 0 (the model lets `uc_sub` trap on a
 missing line with a positive offset, where the C code, handed NULL, is safe).
 -/
 set_option linter.unusedSimpArgs false
@@ -20,42 +20,92 @@ def SlashAt (s s1 : VS) : Prop :=
 /-- the cursor as a start of a motion: an existing character, or `(0, 0)`-like in an empty buffer -/
 def CurOk (s : VS) (r o : Int) : Prop := PosIn (lines s) r o ∧ (lenOf s ≠ 0 → o < slenAt (lines s) r)
 
-/-- no counted `/` search that can be typed from the pending keys overruns a line of the buffer -/
-def SlashOk (s : VS) : Prop :=
-  ∀ (s1 : VS) (cnt r o : Int), SlashAt s s1 → 2 ≤ cnt → CurOk s r o → viSearch 47 cnt r o s1 ≠ Res.trap
+/-- the keys that start a search: `/ ? n N ^A` -/
+def searchKeys : List Int := [47, 63, 110, 78, 1]
 
-theorem SlashOk.mono {s s' : VS} (h : SlashOk s) (hq : allQ s' <:+ allQ s) (hl : lines s' = lines s)
-    (hr : s'.ed.regs = s.ed.regs) (hk : s'.ed.xkwd = s.ed.xkwd) : SlashOk s' := by
-  intro s1 cnt r o ⟨a1, a2, a3, a4⟩ hc ho
-  have hlen : lenOf s' = lenOf s := by unfold lenOf; rw [hl]
-  unfold CurOk at ho
-  rw [hl, hlen] at ho
-  exact h s1 cnt r o ⟨a1.trans hq, a2.trans hl, a3.trans hr, a4.trans hk⟩ hc ho
+/-- `s1` is a state in which a search key typed among the pending keys of `s` has just been read: same text, same
+    registers; the last pattern is that of `s`, or the word pattern `^A` has just made of the word under the cursor -/
+def SearchAt (s s1 : VS) : Prop :=
+  (∃ k ∈ searchKeys, k :: allQ s1 <:+ allQ s) ∧ lines s1 = lines s ∧ s1.ed.regs = s.ed.regs ∧
+    (s1.ed.xkwd = s.ed.xkwd ∨ ∃ cw, s1.ed.xkwd = (([92, 60] ++ cw ++ [92, 62]).take 127).take (Gen.EXLEN - 1))
 
-theorem SlashOk.pfx {s s' : VS} (h : SlashOk s) (hp : PfxPost s s') : SlashOk s' :=
+/-- **the hypotheses about the searches of one iteration** (per state; `kwd` is in fact an invariant of the editor —
+    part of C05e's `Safe` — but C05f's `SOk` does not carry it):
+    * `slash`: no counted `/` search that can be typed from the pending keys overruns a line of the buffer;
+    * `kwd`: the remembered pattern has no NUL (`rstr_make` traps in the model on `\` NUL);
+    * `pos`: the pattern in force after the prompt of a search `? n N ^A` typed from the pending keys matches *inside*
+      the lines (`PatIn`, decidable per pattern and line; for both settings of `ic`).  It is what allows a repeated
+      search (`2n`) to restart from its previous hit; it can fail only on a line that ends in a truncated multi-byte
+      character (C05h `search_hit_beyond_last_char`). -/
+structure SearchOk (s : VS) : Prop where
+  slash : ∀ (s1 : VS) (cnt r o : Int), SlashAt s s1 → 2 ≤ cnt → CurOk s r o → viSearch 47 cnt r o s1 ≠ Res.trap
+  kwd : NoNul s.ed.xkwd
+  pos : ∀ (s1 : VS) (cmd : Nat) (ab : Bool) (s2 : VS), SearchAt s s1 → cmd ≠ 47 → sPre cmd s1 = Res.ok ab s2 →
+    ∀ ic, PatIn s2.ed.xkwd ic (lines s)
+
+theorem SearchAt.mono {s s' s1 : VS} (h : SearchAt s' s1) (hq : allQ s' <:+ allQ s) (hl : lines s' = lines s)
+    (hr : s'.ed.regs = s.ed.regs) (hk : s'.ed.xkwd = s.ed.xkwd) : SearchAt s s1 := by
+  obtain ⟨⟨k, hk1, hk2⟩, a2, a3, a4⟩ := h
+  exact ⟨⟨k, hk1, hk2.trans hq⟩, a2.trans hl, a3.trans hr, by rw [← hk]; exact a4⟩
+
+theorem SearchOk.mono {s s' : VS} (h : SearchOk s) (hq : allQ s' <:+ allQ s) (hl : lines s' = lines s)
+    (hr : s'.ed.regs = s.ed.regs) (hk : s'.ed.xkwd = s.ed.xkwd) : SearchOk s' := by
+  refine ⟨?_, by rw [hk]; exact h.kwd, ?_⟩
+  · intro s1 cnt r o ⟨a1, a2, a3, a4⟩ hc ho
+    have hlen : lenOf s' = lenOf s := by unfold lenOf; rw [hl]
+    unfold CurOk at ho
+    rw [hl, hlen] at ho
+    exact h.slash s1 cnt r o ⟨a1.trans hq, a2.trans hl, a3.trans hr, a4.trans hk⟩ hc ho
+  · intro s1 cmd ab s2 hat hc hm ic
+    rw [hl]
+    exact h.pos s1 cmd ab s2 (hat.mono hq hl hr hk) hc hm ic
+
+theorem SearchOk.pfx {s s' : VS} (h : SearchOk s) (hp : PfxPost s s') : SearchOk s' :=
   h.mono hp.2 (by rw [show lines s' = lines s from by unfold Vi.lines; rw [hp.1]]) (by rw [hp.1]) (by rw [hp.1])
 
-/-- pushing back a key that is not `/` -/
-theorem SlashOk.back {s : VS} (h : SlashOk s) {c : Int} (hc : c ≠ 47) : SlashOk { s with vibuf := c :: s.vibuf } := by
-  intro s1 cnt r o ⟨a1, a2, a3, a4⟩ hcn ho
-  refine h s1 cnt r o ⟨?_, a2, a3, a4⟩ hcn ho
-  rw [allQ_viBack] at a1
-  rcases List.suffix_cons_iff.mp a1 with h1 | h1
-  · injection h1 with h2 _; exact absurd h2.symm hc
-  · exact h1
+/-- pushing back a key that does not start a search, for any description of the new state -/
+theorem SearchOk.back' {s s' : VS} (h : SearchOk s) {c : Int} (hc : c ∉ searchKeys) (hq : allQ s' = c :: allQ s)
+    (hl : lines s' = lines s) (hr : s'.ed.regs = s.ed.regs) (hk : s'.ed.xkwd = s.ed.xkwd) : SearchOk s' := by
+  have hsuf : ∀ (k : Int) (q : List Int), k ∈ searchKeys → k :: q <:+ allQ s' → k :: q <:+ allQ s := by
+    intro k q hk1 a1
+    rw [hq] at a1
+    rcases List.suffix_cons_iff.mp a1 with h1 | h1
+    · injection h1 with h2 _; exact absurd (h2 ▸ hk1) hc
+    · exact h1
+  refine ⟨?_, by rw [hk]; exact h.kwd, ?_⟩
+  · intro s1 cnt r o ⟨a1, a2, a3, a4⟩ hcn ho
+    have hlen : lenOf s' = lenOf s := by unfold lenOf; rw [hl]
+    unfold CurOk at ho
+    rw [hl, hlen] at ho
+    exact h.slash s1 cnt r o ⟨hsuf 47 _ (by decide) a1, a2.trans hl, a3.trans hr, a4.trans hk⟩ hcn ho
+  · intro s1 cmd ab s2 ⟨⟨k, hk1, hk2⟩, a2, a3, a4⟩ hcm hm ic
+    rw [hl]
+    exact h.pos s1 cmd ab s2 ⟨⟨k, hk1, hsuf k _ hk1 hk2⟩, a2.trans hl, a3.trans hr, by rw [← hk]; exact a4⟩ hcm hm ic
 
-/-- pushing back a key that is not `/`, for any description of the new state -/
-theorem SlashOk.back' {s s' : VS} (h : SlashOk s) {c : Int} (hc : c ≠ 47) (hq : allQ s' = c :: allQ s)
-    (hl : lines s' = lines s) (hr : s'.ed.regs = s.ed.regs) (hk : s'.ed.xkwd = s.ed.xkwd) : SlashOk s' := by
-  intro s1 cnt r o ⟨a1, a2, a3, a4⟩ hcn ho
-  have hlen : lenOf s' = lenOf s := by unfold lenOf; rw [hl]
-  unfold CurOk at ho
-  rw [hl, hlen] at ho
-  refine h s1 cnt r o ⟨?_, a2.trans hl, a3.trans hr, a4.trans hk⟩ hcn ho
-  rw [hq] at a1
-  rcases List.suffix_cons_iff.mp a1 with h1 | h1
-  · injection h1 with h2 _; exact absurd h2.symm hc
-  · exact h1
+/-- pushing back a key that does not start a search -/
+theorem SearchOk.back {s : VS} (h : SearchOk s) {c : Int} (hc : c ∉ searchKeys) : SearchOk { s with vibuf := c :: s.vibuf } :=
+  h.back' hc (allQ_viBack _ _) rfl rfl rfl
+
+/-- the word `^A` takes from under the cursor is a piece of a line: no NUL -/
+theorem curword_noNul {s : VS} (hl : ∀ l ∈ lines s, LineOk l) {r o : Int} {cw : Bytes} (h : curword s r o = some cw) :
+    NoNul cw := by
+  unfold curword at h
+  cases hln : lineOf s r with
+  | none => rw [hln] at h; cases h
+  | some ln =>
+    rw [hln] at h
+    dsimp only at h
+    have hmem : ln ∈ lines s := by
+      unfold lineOf lineAt at hln
+      split at hln
+      · cases hln
+      · exact List.mem_of_getElem? hln
+    repeat' split at h
+    all_goals first
+      | (cases h; done)
+      | (cases h
+         intro h0
+         exact (hl ln hmem).noNul (List.mem_of_mem_drop (List.mem_of_mem_take (List.mem_of_mem_take h0))))
 
 /-- a mark that points beyond the buffer has column 0 -/
 def MarksIn (s : VS) : Prop :=
@@ -102,8 +152,8 @@ theorem posIn_of_lines {ls ls' : Lines} (h : ls' = ls) {r o : Int} (hp : PosIn l
 
 /-- **`vi_motion`**: no trap (given the hypotheses on the marks, the regex layer and counted `/` searches);
     a motion that succeeds returns a position inside the buffer -/
-theorem wp_viMotion (hE : EngineOk) (row off : Int) (s : VS) {c : Prop} (hs : SOk s c) (hcur : CurOk s row off)
-    (hmk : MarksIn s) (hsl : SlashOk s) (Q : Int × Int × Int → VS → Prop)
+theorem wp_viMotion (row off : Int) (s : VS) {c : Prop} (hs : SOk s c) (hcur : CurOk s row off)
+    (hmk : MarksIn s) (hsl : SearchOk s) (Q : Int × Int × Int → VS → Prop)
     (hQ : ∀ mv r o s', MvF s s' → (0 < mv → PosIn (lines s) r o) →
       (mv = 0 → s'.ed = s.ed ∧ allQ s' <:+ allQ s) → Q (mv, r, o) s') :
     wp (viMotion row off) Q s := by
@@ -219,7 +269,14 @@ theorem wp_viMotion (hE : EngineOk) (row off : Int) (s : VS) {c : Prop} (hs : SO
   wpif hc
   · wpn
     have hsb : SOk sb c := mb.sok hs
-    refine wp_viSearch hE mv.toNat (cntOf s) r1 off sb hsb hcurp ?_ ?_ _ (fun res sc mc hres => ?_)
+    have hmvk : mv ∈ searchKeys := by
+      simp only [Bool.or_eq_true, beq_iff_eq] at hc
+      unfold searchKeys
+      simp only [List.mem_cons, List.not_mem_nil, or_false]
+      omega
+    have hsuf : mv :: allQ sb <:+ allQ s := by rw [← qb]; exact pa.2
+    refine wp_viSearch mv.toNat (cntOf s) r1 off sb hsb (by rw [eb, pa.1]; exact hsl.kwd) hcurp ?_ ?_ ?_ _
+      (fun res sc mc _ hres => ?_)
     · intro hl
       rw [hlb]
       apply hoff'
@@ -230,9 +287,11 @@ theorem wp_viMotion (hE : EngineOk) (row off : Int) (s : VS) {c : Prop} (hs : SO
         simp only [Bool.or_eq_true, beq_iff_eq] at hc
         omega
       rw [h47]
-      refine hsl sb (cntOf s) r1 off ⟨?_, hlb, by rw [eb, pa.1], by rw [eb, pa.1]⟩ hcnt ⟨⟨hrow, hoff⟩, hoff'⟩
-      have h1 : mv :: allQ sb <:+ allQ s := by rw [← qb]; exact pa.2
-      rw [hmv] at h1; exact h1
+      refine hsl.slash sb (cntOf s) r1 off ⟨?_, hlb, by rw [eb, pa.1], by rw [eb, pa.1]⟩ hcnt ⟨⟨hrow, hoff⟩, hoff'⟩
+      rw [hmv] at hsuf; exact hsuf
+    · intro hne _ ab s2 hm ic
+      rw [hlb]
+      exact hsl.pos sb mv.toNat ab s2 ⟨⟨mv, hmvk, hsuf⟩, hlb, by rw [eb, pa.1], Or.inl (by rw [eb, pa.1])⟩ hne hm ic
     · cases res with
       | none => exact (wp_pure _ _ _).mpr (hQ3 _ (by first | exact hmv0 | decide) _ _ _ (mb.trans mc) (fun h => by omega))
       | some p =>
@@ -247,8 +306,24 @@ theorem wp_viMotion (hE : EngineOk) (row off : Int) (s : VS) {c : Prop} (hs : SO
       wpn
       have md : MvF s { sb with ed := sb.ed.kwdSet (some (([92, 60] ++ cw ++ [92, 62]).take 127)) 1, soset := false } :=
         mb.trans ⟨rfl, rfl, rfl, rfl, id⟩
-      refine wp_viSearch hE 110 (cntOf s) r1 off _ (md.sok hs) ?_ ?_ (fun h => by omega) _
-        (fun res sc mc hres => ?_)
+      have hmv1 : mv = 1 := by
+        simp only [beq_iff_eq] at hc
+        omega
+      have hsuf : (1 : Int) :: allQ sb <:+ allQ s := by rw [← hmv1, ← qb]; exact pa.2
+      refine wp_viSearch 110 (cntOf s) r1 off _ (md.sok hs) ?_ ?_ ?_ (fun h => by omega) ?_ _
+        (fun res sc mc _ hres => ?_)
+      · show NoNul ((sb.ed.kwdSet (some (([92, 60] ++ cw ++ [92, 62]).take 127)) 1).xkwd)
+        unfold Ed.kwdSet
+        dsimp only
+        intro hmem
+        have h1 := List.mem_of_mem_take (List.mem_of_mem_take hmem)
+        simp only [List.cons_append, List.nil_append, List.mem_cons, List.mem_append, List.not_mem_nil, or_false] at h1
+        rcases h1 with h1 | h1 | h1 | h1 | h1
+        · omega
+        · omega
+        · exact curword_noNul (mb.sok hs).linesOk hcw h1
+        · omega
+        · omega
       · rw [md.lines]; exact ⟨hrow, hoff⟩
       · intro hl
         rw [md.lines]
@@ -256,6 +331,11 @@ theorem wp_viMotion (hE : EngineOk) (row off : Int) (s : VS) {c : Prop} (hs : SO
         have : lenOf { sb with ed := sb.ed.kwdSet (some (([92, 60] ++ cw ++ [92, 62]).take 127)) 1, soset := false }
             = lenOf s := by unfold lenOf; rw [md.lines]
         rw [← this]; exact hl
+      · intro _ _ ab s2 hm ic
+        rw [md.lines]
+        exact hsl.pos ({ sb with ed := sb.ed.kwdSet (some (([92, 60] ++ cw ++ [92, 62]).take 127)) 1, soset := false } : VS)
+          110 ab s2 ⟨⟨1, by decide, hsuf⟩, md.lines, by show sb.ed.regs = s.ed.regs; rw [eb, pa.1],
+          Or.inr ⟨cw, rfl⟩⟩ (by decide) hm ic
       · cases res with
         | none => exact (wp_pure _ _ _).mpr (hQ3 _ (by first | exact hmv0 | decide) _ _ _ (md.trans mc) (fun h => by omega))
         | some p =>
